@@ -374,6 +374,17 @@ for _v in ('v311', 'v5'):
       bounds='CONNACK (accepted, session present symbolic) received by a *connected* persistent %s client with one stored QoS1 PUBLISH in flight' % _v, symbolic='i, session present, timer configuration',
       encodes=['process_recv_%s_connack' % ('v3_1_1' if _v == 'v311' else 'v5_0')])
 
+# v5.0 codec harnesses follow the same scheme as the steps (global unwind 2 + whitelist)
+CODEC_UWS = STEP_UWS + [(r'verif_harness', 24), (r'8property', 3)]
+LONG_UWS = STEP_UWS + [(r'verif_harness', 140), (r'8property', 3), (r'mqtt_string|mqtt_binary|arc_payload', 140), (r'memcmp|compare_bytes|SlicePartialEq|5slice3cmp', 140)]
+for _h in HARNESSES:
+    if _h['file'] == 'codec' and (_h['name'].startswith(('c02_v5_', 'c04_v5_')) or _h['name'] in ('c04_subscribe_family_prefixes', 'c04_suback_family_prefixes', 'c04_v311_connect_prefixes', 'c03_numeric_tables')):
+        _h['uws'] = LONG_UWS if 'props12' in _h['name'] else CODEC_UWS
+for _n in ('c09_f3_overlong_rl', 'c02_string_new_n3'):
+    for _h in HARNESSES:
+        if _h['name'] == _n:
+            _h['mem'] = 'L'
+
 # measured peak memory -> class (S 3 GB, M 8, L 16, XL 28); steps not listed default to L until measured
 _MEM = {
     'S': ['st_send_pingreq_v311_client', 'st_send_pingreq_v5_client', 'st_send_disconnect_v311_client', 'st_send_disconnect_v5_server', 'st_timer_fired_v311_client',
